@@ -481,3 +481,42 @@ func ZZ_C20_H4() {
 		zz.Assert("numeric-value-matches-documented-precedence", ok && (f == want.f || (math.IsNaN(f) && math.IsNaN(want.f))))
 	}
 }
+
+// ZZ_C20_H6: runs of unary minus in front of a field reference, a parenthesised group or a
+// function call: k minus signs negate k times ("--x" is x), inside a comparison with the
+// expected number.
+func ZZ_C20_H6() {
+	k := zz.Range("minusSigns", 0, 3)
+	form := zz.Choose("operand", 3)
+	fv := []float64{0, 1, 7}[zz.Choose("fieldValue", 3)]
+	var operand string
+	var val float64
+	switch form {
+	case 0:
+		operand, val = "$", fv
+	case 1:
+		operand, val = "(1+2)", 3
+	case 2:
+		operand, val = "len('ab')", 2
+	}
+	if k%2 == 1 {
+		val = -val
+	}
+	num := zzFmtInt(int(math.Abs(val)))
+	if val < 0 {
+		num = "-" + num
+	}
+	expr := "---"[:k] + operand + " == " + num
+	t := &TagExpr{s: &structVM{fields: map[string]*fieldVM{
+		"F": {valueGetter: func(unsafe.Pointer) interface{} { return fv }},
+	}}}
+	e, err := parseExpr(expr)
+	zz.Cover("reached-assert", true)
+	zz.Cover("double-minus", k == 2)
+	zz.Assert("parses", err == nil)
+	if err != nil {
+		return
+	}
+	got, ok := e.run("F", t).(bool)
+	zz.Assert("k-minus-signs-negate-k-times", ok && got)
+}
